@@ -127,7 +127,29 @@ fn files_json(files: &FileLibrary) -> Vec<Value> {
     list
 }
 
+/// The driver reads one line per case and splits lines the Python way (also at
+/// U+2028, U+0085, ...): keep the output ASCII, non-ASCII characters only occur
+/// inside JSON strings and are written as \uXXXX escapes.
+fn ascii(json: String) -> String {
+    let mut out = String::with_capacity(json.len());
+    for c in json.chars() {
+        if c.is_ascii() {
+            out.push(c);
+        } else {
+            let mut buf = [0u16; 2];
+            for unit in c.encode_utf16(&mut buf) {
+                out.push_str(&format!("\\u{:04x}", unit));
+            }
+        }
+    }
+    out
+}
+
 fn one(line: &str) -> String {
+    ascii(one_json(line))
+}
+
+fn one_json(line: &str) -> String {
     let input: Value = match serde_json::from_str(line) {
         Ok(v) => v,
         Err(e) => return json!({"bad_input": e.to_string()}).to_string(),
